@@ -19,7 +19,8 @@ async fn main() {
     let ds = Dataset::write(reader, &uri, Some(params)).await.unwrap();
     let ds = Arc::new(ds);
     println!("created v{} scheme {:?}", ds.manifest().version, ds.manifest_location().naming_scheme);
-    let txn = InsertBuilder::new(ds.clone()).execute_uncommitted(vec![batch(100, 5)]).await.unwrap();
+    let ap = WriteParams { mode: WriteMode::Append, ..Default::default() };
+    let txn = InsertBuilder::new(ds.clone()).with_params(&ap).execute_uncommitted(vec![batch(100, 5)]).await.unwrap();
     let det = CommitBuilder::new(ds.clone()).with_detached(true).execute(txn).await.unwrap();
     println!("detached commit ok: version {:#x}", det.manifest().version);
     // same process, same session (memory:// stores are per registry): re-resolve the latest version
